@@ -1,7 +1,7 @@
 (* C20 — property theorems only.  Each is closed by [exact <lemma>] and followed by Print Assumptions.
    Vectors have one entry per chemical and any length; [colsum ins i] is the sum over the inlets of
    chemical i; [nonneg v] / [bounded feed v] mean 0 <= v_i (<= feed_i) for every i. *)
-From V Require Import Common.NumFacts C20.Model C20.Proofs C20.ProofsDeep C20.ProofsRound2.
+From V Require Import Common.NumFacts C20.Model C20.Proofs C20.ProofsDeep C20.ProofsRound2 C20.ProofsRound3.
 Open Scope Q_scope.
 
 (* ------------------------------------------------------------------ mix_and_split *)
@@ -1035,3 +1035,67 @@ Example C20_ex_balance_composition :
   comp_err_eqb (material_balance_comp solve 2 [0; 1]%nat vin [] cout 5) EType = true /\
   comp_err_eqb (material_balance_comp solve 2 [0; 1]%nat vin cin cout 1) ERuntime = true.
 Proof. vm_compute. repeat split; reflexivity. Qed.
+
+(* ------------------------------------------------------------------ round 6: state read through caches between calls *)
+(* adjust_moisture_content after ANY history of imass reads, pass-through partners linked with the stream and unlink()
+   calls on the retentate and on the permeate: the mass view the ID branch works through always wraps the stream's own
+   flow vector, so the call is the plain adjust_moisture and every moisture theorem above holds after every history *)
+Theorem C20_moisture_after_link_history : forall mws R P opsR opsP w mc by_mass mwc strict,
+  adjust_moisture_hist mws R P opsR opsP w mc by_mass mwc strict = Some (adjust_moisture mws R P w mc by_mass mwc strict).
+Proof. exact adjust_moisture_hist_is_adjust. Qed.
+Print Assumptions C20_moisture_after_link_history.
+
+(* the invariant behind it, for every history: the cached mass view is a view of the stream's current flow vector *)
+Theorem C20_mass_view_follows_unlink : forall ops, view_target (lrun linit ops) = ls_data (lrun linit ops).
+Proof. intros ops. apply PeanoNat.Nat.eqb_eq. exact (lrun_view_ok ops linit linit_view_ok). Qed.
+Print Assumptions C20_mass_view_follows_unlink.
+
+(* separations.vle handed one multi_stream over ANY history of calls (feeds: Streams of any phase, MultiStreams of any
+   phase set, so the holder's phase tuple grows and its rows are re-sorted), starting from ANY valid content of the
+   class-level index caches: every call hands the flash the rows after copy_like and returns exactly the g row and the
+   l row the flash wrote, never a row of another phase *)
+Theorem C20_vle_reused_multi_stream : forall n present rows caches cs,
+  length present = 4%nat -> nthb present 1 = true -> nthb present 2 = true -> caches_valid caches ->
+  vhist_wf n (vinit present rows caches) cs ->
+  vhist_spec n (vinit present rows caches) cs (vle_hist n (vinit present rows caches) cs).
+Proof. intros. apply vle_hist_spec; auto. apply vinit_wf; auto. Qed.
+Print Assumptions C20_vle_reused_multi_stream.
+
+(* one call in any reachable state: under the flash contract (g + l = total) vapour + liquid = total *)
+Theorem C20_vle_reused_multi_stream_conserves : forall n s c s' top bot seen total,
+  vle_call n s c = (Ok (top, bot), seen, s') -> vs_wf s -> vcall_wf n s c ->
+  (forall rows, let '(g, l) := vc_eq c rows in veq (vadd g l) total) ->
+  veq (vadd top bot) total.
+Proof. exact vle_call_conserves. Qed.
+Print Assumptions C20_vle_reused_multi_stream_conserves.
+
+(* the reachable states keep the invariant: the indexer points at the cache of its own phase tuple and every cached
+   row number is the position the phase indexer computes *)
+Theorem C20_vle_index_cache_valid : forall n s c,
+  vs_wf s -> vcall_wf n s c -> exists s', snd (vle_call n s c) = s' /\ vs_wf s'.
+Proof.
+  intros n s c Hwf Hc. destruct (vle_call_spec n s c Hwf Hc) as (s' & E & Hwf'). exists s'. rewrite E. auto.
+Qed.
+Print Assumptions C20_vle_index_cache_valid.
+
+(* non-vacuity: a holder ('g','l') whose cache already maps g -> row 0, l -> row 1; the second feed carries phase 'L'
+   (empty) and 'l': the holder grows to ('L','g','l'), rows shift by one, the outlets are still the g and l rows *)
+Example C20_ex_vle_reused_multi_stream :
+  let caches := [([false; true; true; false], [(1%nat, 0%nat); (2%nat, 1%nat)])] in
+  let cs := [mkVC (FStream 2 [20; 20]) (eq_rel 2 [1 # 2; 1 # 2]) false;
+             mkVC (FMulti [true; false; true; false] [[0; 0]; [0; 0]; [30; 10]; [0; 0]]) (eq_rel 2 [1 # 2; 1 # 2]) false] in
+  caches_valid caches /\ vhist_wf 2 (vinit [false; true; true; false] (zero_rows 2) caches) cs /  map fst (vle_hist 2 (vinit [false; true; true; false] (zero_rows 2) caches) cs)
+  = [Ok ([10; 10], [10; 10]); Ok ([15; 5], [15; 5])].
+Proof.
+  cbv zeta. split; [|split].
+  - intros key p r. cbn [caches_get].
+    destruct (blist_eqb [false; true; true; false] key) eqn:E.
+    + apply blist_eqb_eq in E. subst key. destruct p as [|[|[|p]]]; cbn; intros H; try discriminate H; injection H as H; subst r; reflexivity.
+    + intros H. discriminate H.
+  - cbn. repeat split; intros H; discriminate H.
+  - vm_compute. reflexivity.
+Qed.
+
+Example C20_ex_moisture_after_link_history :
+  view_okb (lrun linit [LMass; LLink; LUnlink; LMass]) = true /  ls_data (lrun linit [LMass; LLink; LUnlink; LMass]) = 1%nat.
+Proof. vm_compute. split; reflexivity. Qed.
